@@ -58,6 +58,10 @@ LEVEL_TEXT += (
     "ElementDG lists one name per local function in the local basis "
     "order; the outer part of a condensed vector element wraps the "
     "outer part of its element.")
+LEVEL_TEXT += (
+    " Added in the fourth hunting round (DESIGN.md 9.6): "
+    "FacetBasis tests the missing-neighbour sentinel of f2t before "
+    "using the cells of its facets as indices.")
 LEVEL_NOTE = (
     "Trusted: numpy arange/reshape/vstack semantics. Not decided: "
     "properties of concrete meshes (uniqueness of entities is C11), "
